@@ -65,6 +65,10 @@ class Track(object):
         range of the Instrument.
         """
         if self.instrument != None and note is not None:
+            # Names are checked as the notes they are stored as (a list of
+            # bare names is voiced upward by the container).
+            if isinstance(note, (six.string_types, list)):
+                note = NoteContainer(note)
             if not self.instrument.can_play_notes(note):
                 raise InstrumentRangeError(
                     "Note '%s' is not in range of the instrument (%s)" % (note, self.instrument)
